@@ -19,7 +19,8 @@ REQUIRED_THEOREMS = [
     'C12_time_reorder', 'C12_time_reorder_grad', 'C12_time_split', 'C12_composed_is_sum',
     'C12_argsort_inverse', 'C12_time_reorder_composed', 'C12_time_reorder_composed_grad', 'C12_composed_grad',
     'C12_gaussian_grad', 'C12_lognormal_grad', 'C12_gaussianKDE_grad', 'C12_mixture_grad',
-    'C12_lognormalKDE_grad', 'C12_all_missing', 'C12_score_val']
+    'C12_lognormalKDE_grad', 'C12_all_missing', 'C12_score_val', 'C12_sort_times_keeps_shared_data',
+    'C12_sort_times_inplace_counterexample']
 RULE = ('random filter (5 classes; mixtures with 2-4 kernels), 1-6 measured individuals, 1-3 observables, '
         '1-5 times, missing patterns leaving >= 1 value per cell (or none missing), 2-12 simulated '
         'individuals (multiples of n_kernels, >= 2 per kernel), then sort_times histories, random '
@@ -200,6 +201,64 @@ def fd_checks(ctx, tag, f, sim, g, rng, inp, count=3):
 # ----------------------------------------------------------------------------------------
 # one simple filter: correspondence, documented value, invariances, gradient
 # ----------------------------------------------------------------------------------------
+def both_calls(f, shape):
+    """flat vector -> [log-likelihood, S1 score, sensitivities] (the dtype of the input is kept)"""
+    def fn(flat):
+        a = np.asarray(flat).reshape(shape)
+        v = f.compute_log_likelihood(a)
+        s, g = f.compute_sensitivities(a)
+        v = -math.inf if np.ma.is_masked(v) else float(v)
+        return [v, float(s), np.asarray(np.ma.filled(g, np.nan), float)]
+    return fn
+
+
+def whole_sim(rng, n, R, T, Ks):
+    """whole-number simulated measurements with positive variance in every cell and kernel block"""
+    for _ in range(30):
+        a = rng.integers(1, 10, (n, R, T)).astype(float)
+        ok = bool((a.var(axis=0) > 0).all())
+        for K in Ks:
+            if K:
+                p_ = n // K
+                ok = ok and all((a[k * p_:(k + 1) * p_].var(axis=0) > 0).all() for k in range(K))
+        if ok:
+            return a
+    return None
+
+
+def api_hygiene(ctx, name, f, sim, rng, inp, Ks):
+    """what a caller may rely on besides the numbers: its arrays are not written to, the dtype / container of
+    whole-number input does not matter, an input array may be changed in place between calls, and a result
+    that is held is not changed by later calls"""
+    shape = sim.shape
+    fn = both_calls(f, shape)
+    s_arg = sim.copy()
+    with np.errstate(all='ignore'):
+        r1 = fn(s_arg.reshape(-1))
+    ctx.spec('C12.arguments_unchanged/simulated_obs/' + name, np.array_equal(s_arg, sim), inp,
+             {'after compute_log_likelihood and compute_sensitivities': s_arg})
+    other = sim * rng.uniform(0.8, 1.25, shape)
+    held = [r1[0], r1[1], r1[2].copy()]
+    with np.errstate(all='ignore'):
+        fn(other.reshape(-1))
+    ctx.spec('C12.results_held/' + name, core.close(held, r1, 1e-12), inp,
+             {'result of the first call': held, 'the same object after a second call': r1})
+    ctx.inplace_reuse('C12.inplace_reuse/' + name, fn, sim.reshape(-1), other.reshape(-1), inp)
+    w = whole_sim(rng, shape[0], shape[1], shape[2], Ks)
+    if w is not None:
+        ctx.number_types('C12.number_types/' + name, fn, w.reshape(-1), dict(inp, whole_number_sim=w))
+
+
+def sibling_kind(rng, n):
+    kind = KINDS[int(rng.integers(len(KINDS)))]
+    if kind != 'MIX':
+        return kind, 0
+    ks = [K for K in (2, 3, 4) if n % K == 0 and n // K >= 2]
+    if not ks:
+        return 'G', 0
+    return 'MIX', int(rng.choice(ks))
+
+
 def run_simple(ctx, chi, rng, kind, K, obs, sim, tag='gen'):
     name = NAMES[kind]
     m, R, T = obs.shape
@@ -243,6 +302,7 @@ def run_simple(ctx, chi, rng, kind, K, obs, sim, tag='gen'):
             if math.isfinite(mo[3]) and math.isfinite(docm):
                 ctx.agree('C12.spec_twin_measured_bandwidth', docm, mo[3], inp, rtol=1e-8)
     fd_checks(ctx, 'C12.grad/' + name, f, sim, g, rng, inp)
+    api_hygiene(ctx, name, f, sim, rng, inp, [K])
     # NaN padding (appended and interleaved all-missing individuals) and permutation of individuals
     extra = int(rng.integers(1, 4))
     padded = np.concatenate([obs, np.full((extra, R, T), np.nan)], axis=0)
@@ -273,13 +333,40 @@ def run_sort(ctx, chi, rng, kind, K, obs, sim, v, g):
     m, R, T = obs.shape
     n_calls = int(rng.integers(1, 3))
     ords = [rng.permutation(T) for _ in range(n_calls)]
-    f = make(chi, kind, K, obs.copy())
+    # ONE float array handed to several filters (np.asarray does not copy): the filter that is sorted, a
+    # sibling built before and a sibling built after
+    arr = obs.copy()
+    snap = arr.copy()
+    sk, sK = sibling_kind(rng, sim.shape[0])
+    sib = make(chi, sk, sK, arr)
+    vb, _, gb, eb = chi_eval(sib, sim)
+    f = make(chi, kind, K, arr)
+    ord_args = [np.array(o) for o in ords]
     total = np.arange(T)
-    for o in ords:
+    for o in ord_args:
         f.sort_times(o)
         total = total[o]
     sim2 = sim[:, :, total]
-    inp = {'filter': name, 'n_kernels': K, 'obs': obs, 'sim': sim, 'orders': ords}
+    inp_sh = {'filter': name, 'n_kernels': K, 'sibling': NAMES[sk], 'sibling_n_kernels': sK, 'obs': obs, 'sim': sim,
+              'orders': ords}
+    ctx.spec('C12.arguments_unchanged/observations/' + name, np.array_equal(arr, snap, equal_nan=True), inp_sh,
+             {'the caller\'s array after sort_times': arr})
+    ctx.spec('C12.arguments_unchanged/order/' + name, all(np.array_equal(a, b) for a, b in zip(ord_args, ords)),
+             inp_sh, {})
+    va, _, ga, ea = chi_eval(sib, sim)
+    ctx.spec('C12.shared_data/sibling_built_before/' + name, ea == eb and core.close(va, vb, 1e-12) and
+             (gb is None or core.close(ga, gb, 1e-12)), inp_sh,
+             {'sibling before sort_times of the other filter': vb, 'after': va, 'error': ea})
+    vc, _, gc, ec = chi_eval(make(chi, sk, sK, arr), sim)
+    ctx.spec('C12.shared_data/sibling_built_after/' + name, ec == eb and core.close(vc, vb, 1e-12) and
+             (gb is None or core.close(gc, gb, 1e-12)), inp_sh,
+             {'sibling built before': vb, 'sibling built from the same array after sort_times': vc, 'error': ec})
+    if eb is None:
+        ms = ctx.model('C12.sort_shared', wire_filt(kind, K, obs), sk, int(sK), [int(t) for t in total], sim.tolist())
+        if len(ms) == 3:
+            ctx.agree('C12.sort_shared.sibling_before', vb, ms[0], inp_sh)
+            ctx.agree('C12.sort_shared.sibling_after', va, ms[1], inp_sh)
+    inp = inp_sh
     ctx.case('%s/sort_times/%s' % (kind, perm_class(total)),
              nontrivial='%s/sort/%d/%d/%s' % (kind, T, n_calls, perm_class(total)) if T >= 2 else False)
     v2, s2, g2, err = chi_eval(f, sim2)
@@ -335,7 +422,9 @@ def run_composed(ctx, chi, rng, obs, sim_for, same_kind):
         kinds = [gen_kind(rng) for _ in blocks]
     n = gen_nsim(rng, [K for _, K in kinds])
     sim = sim_for(n)
-    filters = [make(chi, k, K, obs[:, :, a:b].copy()) for (k, K), (a, b) in zip(kinds, blocks)]
+    # the sub-filters are handed VIEWS of one array of the caller
+    arr = obs.copy()
+    filters = [make(chi, k, K, arr[:, :, a:b]) for (k, K), (a, b) in zip(kinds, blocks)]
     C = chi.ComposedPopulationFilter(filters)
     use_order = rng.random() < 0.7
     ord_ = rng.permutation(T) if use_order else None
@@ -373,6 +462,9 @@ def run_composed(ctx, chi, rng, obs, sim_for, same_kind):
                  core.close(g, g0 if ord_ is None else g0[:, :, ord_], 1e-8, 1e-10), inp,
                  {'unsorted': v0, 'deferred order on consistently reordered input': v})
         fd_checks(ctx, 'C12.composed/grad', C, sim_in, g, rng, inp, count=3)
+        api_hygiene(ctx, 'composed', C, sim_in, rng, inp, [K for _, K in kinds])
+        ctx.spec('C12.arguments_unchanged/observations/composed', np.array_equal(arr, obs, equal_nan=True), inp,
+                 {'the caller\'s array after sort_times and evaluations': arr})
         if same_kind:
             kind, K = kinds[0]
             vs, _, gs, es = chi_eval(make(chi, kind, K, obs.copy()), sim)
